@@ -12,7 +12,7 @@ EXEC_SRCS := sim/exec_a.cpp sim/exec_b.cpp sim/exec_c.cpp sim/exec_d.cpp sim/mai
 HFLAGS := -std=c++14 -O0 -g -fno-omit-frame-pointer -fsanitize=address,undefined -fno-sanitize-recover=undefined -DTROMPELOEIL_SANITY_CHECKS -I$(INC) -Isim -Wno-unused-value
 H_OBJS := $(patsubst $(GEN)/%.cpp,$(B)/H/%.o,$(SHAPE_SRCS)) $(patsubst sim/%.cpp,$(B)/H/%.o,$(EXEC_SRCS))
 
-all: $(B)/simH $(B)/simT $(B)/simTa
+all: $(B)/simH $(B)/simT $(B)/simTa $(B)/simC
 
 $(GEN)/stamp: tools/gen_shapes.py
 	@mkdir -p $(GEN)
@@ -60,3 +60,9 @@ $(B)/TA/sched.o: sim/sched.cpp sim/sched.hpp
 	$(CXX) -std=c++14 -O1 -g -c $< -o $@
 $(B)/simTa: $(TA_OBJS) $(B)/TA/sched.o
 	$(CXX) $(TAFLAGS) $(WRAP) $^ -o $@
+
+# ---- coroutine world (C20): C++20 ----
+CFLAGS20 := -std=c++20 -O0 -g -fno-omit-frame-pointer -fsanitize=address,undefined -fno-sanitize-recover=undefined -DTROMPELOEIL_SANITY_CHECKS -I$(INC) -Isim -Wno-unused-value
+$(B)/simC: sim/coro_main.cpp $(HDRS)
+	@mkdir -p $(B)
+	$(CXX) $(CFLAGS20) $< -o $@
